@@ -215,12 +215,18 @@ type c18Flow struct {
 
 // c18Run performs Prepare, Blind, BlindSign, Finalize with the given choices.
 func c18Run(k *c18Key, v blindrsa.Variant, msg, prep, salt []byte, r *big.Int) (f c18Flow) {
-	var err error
-	f.client, err = blindrsa.NewClient(v, &k.sk.PublicKey)
+	client, err := blindrsa.NewClient(v, &k.sk.PublicKey)
 	if err != nil {
 		f.stage, f.err = "NewClient", err
 		return
 	}
+	return c18RunOn(client, blindrsa.NewSigner(k.sk), k, msg, prep, salt, r)
+}
+
+// c18RunOn is c18Run on given (possibly already used) client and signer objects.
+func c18RunOn(client blindrsa.Client, signer blindrsa.Signer, k *c18Key, msg, prep, salt []byte, r *big.Int) (f c18Flow) {
+	var err error
+	f.client = client
 	pr := &c18Seq{data: prep} // empty for the deterministic variants: they must not read at all
 	if f.prepared, err = f.client.Prepare(pr, msg); err != nil {
 		f.stage, f.err = "Prepare", err
@@ -233,7 +239,7 @@ func c18Run(k *c18Key, v blindrsa.Variant, msg, prep, salt []byte, r *big.Int) (
 		f.stage, f.err = "Blind", err
 		return
 	}
-	if f.blindSig, err = blindrsa.NewSigner(k.sk).BlindSign(f.blinded); err != nil {
+	if f.blindSig, err = signer.BlindSign(f.blinded); err != nil {
 		f.stage, f.err = "BlindSign", err
 		return
 	}
@@ -911,4 +917,139 @@ func TestVerifC18_verifier(t *testing.T) {
 	r.RequireCounter("accepted:other salt length", 3*2*6+3)
 	r.RequireCounter("accepted:honest", int64(len(keys)))
 	r.RequireCounter("both_refuse", nj*1200)
+}
+
+// ---------------------------------------------------------------------------------------------
+
+// TestVerifC18_history: every operation sequence of length 3 (hence every one up to depth 3, checked after each
+// step) on ONE Client and ONE Signer object; each step must give exactly what fresh objects give.
+func TestVerifC18_history(t *testing.T) {
+	r := verifmc.Start(t, "C18", "history")
+	defer r.Finish()
+	vs := &c18Sink{}
+	defer vs.Flush(r) // runs before Finish
+	opNames := []string{"Sign(m0)", "Sign(m1)", "Verify(good)", "Verify(bad)", "Finalize(bad);Finalize(good)", "Prepare"}
+	r.Rule("key rsa_1025 x variants {PSS-Randomized, PSSZero-Deterministic}: all 6^3 sequences over {Sign(m0), Sign(m1) = Prepare+Blind(fixed prefix, salt, blind)+BlindSign+Finalize, " +
+		"Verify(honest sig), Verify(bit-flipped sig), Finalize(flipped blind sig) then Finalize(honest) on a retained state, Prepare} on one Client and one Signer, " +
+		"checked after every step against the results of fresh objects (byte-identical blinded message and signature, rsa.VerifyPSS accepts); non-trivial = distinct (variant, sequence)")
+	r.Set("alphabet", opNames)
+	r.Set("depth", 3)
+	var k *c18Key
+	for _, x := range c18Keys(t, r) {
+		if x.name == "rsa_1025" {
+			k = x
+		}
+	}
+	if k == nil {
+		t.Fatal("fixture rsa_1025 missing")
+	}
+	units, _, _ := c18Blinds(k, false)
+	blind := units[2].r
+	msgs := [][]byte{[]byte("history-0"), verifmc.Msg(200)}
+	nOps := len(opNames)
+	for _, v := range []blindrsa.Variant{blindrsa.SHA384PSSRandomized, blindrsa.SHA384PSSZeroDeterministic} {
+		var prep, salt []byte
+		if c18Randomized(v) {
+			prep = c18Rep(0x02, 32)
+		}
+		if c18Salted(v) {
+			salt = c18Rep(0x7f, 48)
+		}
+		// reference results on fresh objects
+		var ref [2]c18Flow
+		okRef := true
+		for i := range msgs {
+			ref[i] = c18Run(k, v, msgs[i], prep, salt, blind)
+			if ref[i].stage != "" || rsa.VerifyPSS(&k.sk.PublicKey, c18H, pss.Sum(c18H, ref[i].prepared), ref[i].sig, c18OptsGo(v)) != nil {
+				vs.Violation("C18|blindrsa.history|fresh objects do not produce a valid signature|"+c18VName(v), k.name+"/"+c18VName(v), fmt.Sprintf("stage %q err %v", ref[i].stage, ref[i].err), nil)
+				okRef = false
+			}
+		}
+		if !okRef {
+			continue
+		}
+		badSig := verifmc.Flip(ref[0].sig, 13)
+		badBlindSig := verifmc.Flip(ref[0].blindSig, 21)
+		total := nOps * nOps * nOps
+		verifmc.ParallelFor(total, func(hi int) {
+			seq := []int{hi / (nOps * nOps), hi / nOps % nOps, hi % nOps}
+			names := []string{opNames[seq[0]], opNames[seq[1]], opNames[seq[2]]}
+			id := fmt.Sprintf("%s/%s/[%s]", k.name, c18VName(v), strings.Join(names, ","))
+			if !r.Want(id) {
+				return
+			}
+			client, err := blindrsa.NewClient(v, &k.sk.PublicKey)
+			if err != nil {
+				vs.Violation("C18|blindrsa.NewClient|honest flow fails|"+c18VName(v), id, err.Error(), nil)
+				return
+			}
+			signer := blindrsa.NewSigner(k.sk)
+			var kept *c18Flow // last completed flow of this history (its State is reused by the Finalize op)
+			r.Trace(1)
+			r.Distinct(id)
+			for step, op := range seq {
+				at := fmt.Sprintf("%s step %d (%s)", id, step+1, opNames[op])
+				fail := func(class, what string) {
+					vs.Violation(fmt.Sprintf("C18|blindrsa.history|%s|%s", class, opNames[op]), id, at+": "+what,
+						map[string]string{"key": k.name, "variant": v.String(), "history": strings.Join(names[:step+1], ",")})
+				}
+				r.Transition(1)
+				r.Eval(1)
+				p, what := verifmc.Try(func() {
+					switch op {
+					case 0, 1:
+						f := c18RunOn(client, signer, k, msgs[op], prep, salt, blind)
+						if f.stage != "" {
+							fail("flow fails on reused objects", fmt.Sprintf("%s returned %v", f.stage, f.err))
+							return
+						}
+						if !bytes.Equal(f.blinded, ref[op].blinded) || !bytes.Equal(f.sig, ref[op].sig) {
+							fail("result differs from fresh objects", fmt.Sprintf("sig %s, fresh objects give %s", verifmc.Hex(f.sig), verifmc.Hex(ref[op].sig)))
+						}
+						if rsa.VerifyPSS(&k.sk.PublicKey, c18H, pss.Sum(c18H, f.prepared), f.sig, c18OptsGo(v)) != nil {
+							fail("signature refused by rsa.VerifyPSS", "sig "+verifmc.Hex(f.sig))
+						}
+						kept = &f
+						r.Count("signatures_compared_with_fresh", 1)
+					case 2:
+						if err := client.Verify(ref[0].prepared, ref[0].sig); err != nil {
+							fail("honest signature refused on a reused client", err.Error())
+						}
+						r.Count("verify_good", 1)
+					case 3:
+						if err := client.Verify(ref[0].prepared, badSig); err == nil {
+							fail("altered signature accepted on a reused client", "flipped bit 13")
+						}
+						r.Count("verify_bad", 1)
+					case 4:
+						st, good := ref[0].state, ref[0].blindSig
+						if kept != nil {
+							st, good = kept.state, kept.blindSig
+						}
+						if _, err := client.Finalize(ref[0].state, badBlindSig); err == nil {
+							fail("altered blind signature finalised on a reused client", "flipped bit 21")
+						}
+						if _, err := client.Finalize(st, good); err != nil {
+							fail("honest blind signature refused on a reused state", err.Error())
+						}
+						r.Count("finalize_bad_then_good", 1)
+					case 5:
+						out, err := client.Prepare(&c18Seq{data: prep}, msgs[1])
+						if err != nil || !bytes.Equal(out, ref[1].prepared) {
+							fail("Prepare differs from fresh objects", fmt.Sprint(err))
+						}
+						r.Count("prepare", 1)
+					}
+				})
+				if p {
+					fail("panic:"+verifmc.PanicClass(what), what)
+					return
+				}
+			}
+		})
+		r.State(total)
+	}
+	r.Sample(map[string]string{"case": "rsa_1025/PSS-Randomized/[Sign(m0),Verify(bad),Sign(m1)]", "oracle": "byte equality with fresh objects + rsa.VerifyPSS"})
+	r.RequireCounter("signatures_compared_with_fresh", 2*2*3*36)
+	r.RequireCounter("verify_bad", 2*3*36)
 }
